@@ -1,25 +1,11 @@
 """C47: ForceQueuingTag entry points never run the functor on the calling thread (harness c47_fq.cpp)."""
 from specs import reg, McRun, product, MC_ASSUME, need_cover, need_outcomes  # noqa: F401
 
-APIS = ['pool', 'ts', 'ctsl', 'ctsh']
-
-
-def _long_prog(api, n):
-    # with gate=1 the load only grows: call i is made with all earlier functors still pending, from an empty pool
-    # to beyond 2*loadFactor+1 for both the pool (n*mult) and the task set (n*smult) with mult = smult = 1
-    if api == 'pool':
-        return 'qqqqq' if n == 1 else 'qqqqqqq'
-    return 'qB2qB1q' if n == 1 else 'qB3qB2q'
-
-
-def _short_progs(api):
-    return ['q', 'qq'] if api == 'pool' else ['q', 'B2', 'qB2', 'B2q']
-
-
 def c47_runs(tier):
+    """api=any / api=sets / caller=any are resolved inside the harness by mc::choose: one run explores the whole family."""
     runs, seen = [], set()
 
-    def add(n, api, t0, caller='ext', t1='-', gate=1, mult=1, smult=1, bound=1, mode='plain', budget=60):
+    def add(n, api, t0, caller='any', t1='-', gate=1, mult=1, smult=1, bound=1, mode='plain', budget=60):
         key = (n, api, t0, caller, t1, gate, mult, smult, bound, mode)
         if key in seen:
             return
@@ -27,50 +13,61 @@ def c47_runs(tier):
         runs.append(McRun('c47_fq', 'fq', dict(n=n, api=api, t0=t0, caller=caller, t1=t1, gate=gate, mult=mult, smult=smult), bound=bound, mode=mode, budget=budget))
 
     quick = tier == 'quick'
-    for n in (1, 2):
-        for api in APIS:
-            for caller in ('ext', 'pool'):
-                add(n, api, _long_prog(api, n), caller=caller, budget=90)
-            # without the gate the earlier functors may start, finish and be accounted while later calls are made
-            add(n, api, 'qqq' if api == 'pool' else 'qB2q', gate=0)
-            if not quick:
-                add(n, api, 'qqq' if api == 'pool' else 'B2qB1', caller='pool', gate=0)
-                for p in _short_progs(api):
-                    for caller in ('ext', 'pool'):
-                        add(n, api, p, caller=caller)
+    # gated, growing load: every entry point x both callers, load from empty to far beyond every factor
+    add(1, 'pool', 'qqqqq', budget=60)
+    add(1, 'sets', 'qB2qB1q', budget=90)
+    # sanitizer legs (early, so that a tier cut short by machine load still has them)
+    add(1, 'sets', 'qB2q', caller='ext', bound=1, mode='tsan', budget=150)
+    add(1, 'ctsl', 'B2q', caller='pool', bound=1, mode='asan', budget=150)
+    if quick:
+        # n=2: beyond (not far beyond) the factors in the quick tier; the long programs cost ~30k executions per caller
+        add(2, 'pool', 'qqqq', caller='ext', budget=120)
+        add(2, 'sets', 'B3q', caller='ext', budget=120)
+        add(2, 'ctsh', 'B3q', caller='pool', budget=120)
+    else:
+        for caller in ('ext', 'pool'):
+            add(2, 'pool', 'qqqqqqq', caller=caller, budget=400)
+            add(2, 'sets', 'qB3qB2q', caller=caller, budget=600)
+    # without the gate the earlier functors may start, finish and be accounted while later calls are made
+    add(1, 'any', 'qB2q', gate=0, budget=90)
+    if not quick:
+        add(2, 'any', 'qB2q', gate=0, caller='ext', budget=300)
     # two callers at once (TaskSet is single-threaded by contract, so not for api=ts)
-    add(1, 'pool', 'qq', t1='qq')
-    add(1, 'ctsl', 'qB2', t1='qq')
-    add(2, 'ctsh', 'q', t1='B2')
+    add(1, 'pool', 'qq', t1='qq', caller='ext')
+    add(1, 'ctsl', 'qB2', t1='qq', caller='ext')
     if not quick:
-        add(1, 'ctsh', 'B2q', t1='qB1')
-        add(2, 'pool', 'qq', t1='q', caller='pool')
-        add(2, 'ctsl', 'B2', t1='q', gate=0)
+        add(2, 'ctsh', 'q', t1='B2', caller='ext', budget=200)
     # default multipliers (32 / 4): the load stays below the factors, the calls still must not run inline
-    add(1, 'ts', 'qB2q', mult=32, smult=4)
-    add(2, 'ctsh', 'qB3', mult=32, smult=4, caller='pool')
+    add(1, 'any', 'qB2q', mult=32, smult=4)
     if not quick:
+        add(2, 'any', 'qB2q', gate=0, caller='pool', budget=240)
+        add(2, 'any', 'qB3', mult=32, smult=4, budget=240)
+        for p in ('q', 'B2', 'B1q', 'B3B3', 'qqB1'):
+            add(1, 'any', p)
+            add(1, 'any', p, gate=0)
+            add(2, 'any', p, budget=240)
+        add(1, 'ctsh', 'B2q', t1='qB1', caller='ext')
+        add(2, 'pool', 'qq', t1='q', caller='pool', budget=120)
+        add(2, 'ctsl', 'B2', t1='q', gate=0, caller='ext', budget=120)
         # bound 2 on the shortest programs
-        for api in APIS:
-            for p in (['qq'] if api == 'pool' else ['qq', 'B2q']):
-                for caller in ('ext', 'pool'):
-                    add(1, api, p, caller=caller, bound=2, budget=150)
-            add(2, api, 'q' if api in ('pool', 'ts') else 'B2', bound=2, budget=200)
-    # sanitizer legs
-    add(1, 'ts', 'qB2q', bound=1, mode='tsan', budget=90)
-    add(2, 'ctsh', 'qB2', bound=1, mode='tsan', budget=120)
-    add(1, 'ctsl', 'B2q', caller='pool', bound=1, mode='asan', budget=120)
-    add(1, 'pool', 'qq', t1='qq', bound=1, mode='asan', budget=120)
+        add(1, 'any', 'qq', bound=2, budget=400)
+        add(1, 'sets', 'B2q', bound=2, budget=400)
+        add(1, 'any', 'qB1', bound=2, gate=0, caller='ext', budget=400)
+        add(2, 'any', 'q', bound=2, caller='ext', budget=400)
+        add(2, 'sets', 'B2', bound=2, caller='ext', budget=400)
+    if not quick:
+        add(2, 'ctsh', 'qB2', caller='ext', bound=1, mode='tsan', budget=200)
+        add(1, 'pool', 'qq', t1='qq', caller='ext', bound=1, mode='asan', budget=200)
     return runs
 
 
-reg('C47', level='model_checking', runs=c47_runs, quick_budget_s=400, thorough_budget_s=2400,
+reg('C47', level='model_checking', runs=c47_runs, quick_budget_s=420, thorough_budget_s=3000,
     technique='stateless model checking of every ForceQueuingTag entry point of the real ThreadPool / TaskSet / ConcurrentTaskSet under growing load, caller on an external thread or on a pool thread; thread identity and call-in-progress flag recorded by each functor',
     level_text='Pools of 1 and 2 threads; entry points ThreadPool::schedule(f,FQ), TaskSet::schedule(f,FQ), TaskSet::scheduleBulk(n,gen,FQ), ConcurrentTaskSet::schedule(f,FQ) and ::scheduleBulk(n,gen,FQ) with TaskCost::kLightweight (central queue) and TaskCost::kHeavy (steal-ring placement) - ThreadPool has no bulk FQ overload; poolLoadMultiplier = stealingLoadMultiplier = 1 with every functor held at a gate until the caller has made all its calls, so that successive calls see the pool empty, below, beyond and far beyond (more than 2x+1) the pool load factor, the pool-recursive factor (1.5 n) and the task-set factor - the conditions under which the non-FQ overloads run inline (each recorded as a cover marker before the call); also ungated, with two concurrent callers, and with the default multipliers. Caller = T0 or a task running on a pool thread. Every interleaving with <= 1 deviation (thorough: more programs, and bound 2 on the shortest programs). Oracle: no functor handed to an FQ call starts on the calling thread while that call is in progress; every functor runs exactly once.',
-    level_note='SC interleavings; ConcurrentTaskSet::scheduleBulk from a pool thread enqueues without a producer token, which makes moodycamel index a table by the thread\'s TLS address: the harness normalises glibc\'s thread-stack cache before each execution for those configurations (harness/submit_stacknorm.h). TSan and ASan legs on four shapes.',
+    level_note='SC interleavings; ConcurrentTaskSet::scheduleBulk from a pool thread enqueues without a producer token, which makes moodycamel index a table by the thread\'s TLS address: the harness normalises glibc\'s thread-stack cache before each execution for those configurations (harness/submit_stacknorm.h). TSan and ASan legs on two (thorough: four) shapes.',
     design_ref='DESIGN.md section 4, C47', assumptions=MC_ASSUME,
     rule='one evaluation = one complete execution of one configuration (entry point x pool size x caller x program) under one schedule; distinct_nontrivial = distinct scheduler states with more than one continuation',
     guards=[need_cover('fq_pool_schedule', 'fq_ts_schedule', 'fq_ts_bulk', 'fq_ctsl_schedule', 'fq_ctsl_bulk', 'fq_ctsh_schedule', 'fq_ctsh_bulk',
                        'caller_is_pool_thread', 'load_empty', 'load_beyond_pool_factor', 'load_far_beyond_pool_factor', 'load_beyond_taskset_factor',
                        'load_far_beyond_taskset_factor', 'load_beyond_pool_recursive_factor', 'started_during_call_elsewhere', 'started_after_call'),
-            need_outcomes(30)])
+            need_outcomes(15)])
